@@ -20,7 +20,7 @@ ASSUMPTIONS = [
     "Set C (constness): programs in which a name is bound once by a constant but is not a constant (parameter, re-binding in a branch / loop / other function / augmented assignment) are compared source vs emitted code with symbolic device reads under three option vectors",
 ]
 
-CONSTS = [0, 1, 2, 3, 5, 7, 10, 0.5, 0.25, 1.5, 100, -1, -2.5, 12, 60]
+CONSTS = [0, 1, 2, 3, 5, 7, 10, 0.5, 0.25, 1.5, 100, -1, -2.5, 12, 60, 0.03125, -0.0625, -0.001953125]
 
 
 class ExprGen:
